@@ -18,3 +18,6 @@ add('C03', 'exploration', 'bounded exhaustive enumeration of fragment strings, t
 add('C04', 'exploration', 'bounded exhaustive enumeration of fragment strings through split() and parse(), pieces re-fed',
     'Same spaces as C02 with the statement-boundary driver deepened; split/parse agreement, tiling of the input modulo whitespace and re-splitting of every piece, on every input; exhaustive within the bound.',
     _E1, 'DESIGN.md 4/C04')
+add('C09', 'exploration', 'bounded exhaustive enumeration of bracket/block fragment strings against a reference stack matcher',
+    'Every sequence of up to 4-6 bracket/block/middle-token fragments (balanced or not) is parsed and the six matched-pair node classes are compared, as span sets and in child-level shape, with a staged textbook stack matcher; reference and implementation are compared on every input; exhaustive within the bound.',
+    _E1, 'DESIGN.md 4/C09')
